@@ -58,6 +58,17 @@ def file_api_cases(ck, cases, nmax):
             seqs = [s for s in c['seqs']]
             names = gen.names_for(ck.rng, len(seqs))
             inp = os.path.join(tmp, 'in%d.fa' % idx)
+            fmts = ('fasta', 'msf', 'clu')
+            if idx % 6 == 4:
+                # header lines longer than any fixed line buffer (around 4 KiB, 8 KiB and beyond): a FASTA name is the whole header
+                # line; a reader that splits it would take the tail for residues.  FASTA output only (Clustal/MSF pad every line to
+                # the longest name).
+                names = list(names)
+                for k in sorted(set([ck.rng.below(len(names)), ck.rng.below(len(names))])):
+                    L = ck.rng.choice([ck.rng.range(4080, 4100), ck.rng.range(8180, 8200), ck.rng.range(12000, 14000)])
+                    names[k] = names[k] + '_' + gen.rand_seq(ck.rng, 'ACDEFGHIKLMNPQRSTVWYacgt0123456789_', L)
+                fmts = ('fasta',)
+                ck.count('file api: header line of 4 KiB .. 14 KiB')
             text = gen.fasta(names, c.get('written', seqs), ck.rng.choice([60, 60, 7, 100]))
             if idx % 4 == 1:        # a last line without newline is still a line
                 text = text.rstrip('\n'); ck.count('file api: input without final newline')
@@ -75,7 +86,7 @@ def file_api_cases(ck, cases, nmax):
                     parts.append(pf)
                 inputs, split = ' '.join(parts), True
                 ck.count('file api: records split over %d input files' % len(parts))
-            for fmt in ('fasta', 'msf', 'clu'):
+            for fmt in fmts:
                 outp = os.path.join(tmp, 'out%d.%s' % (idx, fmt))
                 lines.append('runfile 0 %d %d %d %d %d %s %s %s' % (c['threads'], c['type'], c['pens'][0], c['pens'][1], c['pens'][2], fmt, outp, inputs))
                 meta.append((c, fmt, outp, names, seqs, split))
@@ -104,7 +115,7 @@ def file_api_cases(ck, cases, nmax):
                 _, onames, rows = gen.parse_clustal(text)
             exp_names = [n for n, s in zip(names, seqs) if s]
             if onames != exp_names:
-                out.append((c, fmt, False, 'names differ: %r vs %r' % (onames[:4], exp_names[:4]), names))
+                out.append((c, fmt, False, 'names differ: %r vs %r' % ([x[:80] for x in onames[:4]], [x[:80] for x in exp_names[:4]]), [x[:300] for x in names]))
                 continue
             ilines.append('integrity %s %s' % (','.join(gen.hexs(s) for s in seqs), ','.join(gen.hexs(r) for r in rows)))
             imeta.append((c, fmt, names))
